@@ -1102,7 +1102,7 @@ func vfC19RunCase(cl *vfC19Cluster, p *vfC19Params, keySalt int) *vfC19Run {
 				r.harness = "cannot open client: " + err.Error()
 				return r
 			}
-		case <-time.After(30 * time.Second):
+		case <-time.After(15 * time.Second):
 			r.harness = fmt.Sprintf("watchdog: client.Open through %s did not return (INIT not answered)", r.via)
 			return r
 		}
@@ -1200,7 +1200,7 @@ func TestVerif_C19(t *testing.T) {
 			env.Seed = doc.Seed
 		}
 	}
-	n := env.N(84, 2100)
+	n := env.N(84, 3500)
 	vfContinueAfterPanic = true
 	shards := 12
 	if env.Thorough() {
